@@ -1,0 +1,49 @@
+//go:build verif
+
+package value
+
+import "time"
+
+// VerifAdvance makes every recorded increment look d older (verification harness only).
+func (r *Ratecounter) VerifAdvance(d time.Duration) {
+	for k, es := range r.Clients {
+		for i := range es {
+			es[i].Timestamp -= d.Milliseconds()
+		}
+		r.Clients[k] = es
+	}
+}
+
+// VerifTotals returns the sum of all recorded increments per client entry.
+func (r *Ratecounter) VerifTotals() map[string]int64 {
+	out := map[string]int64{}
+	for k, es := range r.Clients {
+		for _, e := range es {
+			out[k] += e.Count
+		}
+	}
+	return out
+}
+
+// VerifAdvance moves every expiry d towards the past (verification harness only).
+func (p *Penaltybox) VerifAdvance(d time.Duration) {
+	p.Clients.Range(func(k, v any) bool {
+		if t, ok := v.(time.Time); ok {
+			p.Clients.Store(k, t.Add(-d))
+		}
+		return true
+	})
+}
+
+// VerifEntries lists the entries whose expiry lies in the future.
+func (p *Penaltybox) VerifEntries() []string {
+	var out []string
+	now := time.Now()
+	p.Clients.Range(func(k, v any) bool {
+		if t, ok := v.(time.Time); ok && !t.Before(now) {
+			out = append(out, k.(string))
+		}
+		return true
+	})
+	return out
+}
